@@ -66,11 +66,11 @@ def run(chk):
     for i in range(n):
         kind = ("batchsort", "batchvisual")[i % 2]
         trace = chk.workdir / f"batch-{i}.ndjson"
-        p = vlib.sh([str(vlib.VH), "record", "batch", "--kind", kind, "--seed", str(chk.seed * 100000 + i), "--batches", str(rnd.choice((2, 3))),
-                     "--scenes", str(rnd.choice((2, 3))), "--delay-us", str(rnd.choice((100, 500, 1500))), "--out", str(trace)] + (["--getter", "1"] if i % 4 >= 2 else []), timeout=200)
-        if p.returncode != 0:
-            vlib.tool_error("vh record batch failed: " + (p.stdout or "")[-1000:])
-        jobs.append((i, trace, chk.workdir))
+        ok = vlib.run_recorder(chk, [vlib.VH, "record", "batch", "--kind", kind, "--seed", chk.seed * 100000 + i, "--batches", rnd.choice((2, 3)),
+                                     "--scenes", rnd.choice((2, 3)), "--delay-us", rnd.choice((100, 500, 1500)), "--out", trace]
+                               + (["--getter", "1"] if i % 4 >= 2 else []), "batch:record", timeout=300)
+        if ok:
+            jobs.append((len(jobs), trace, chk.workdir))
     nt = 0
     with cf.ThreadPoolExecutor(max_workers=6) as ex:
         for i, ok, gen, dist, rej in ex.map(validate_one, jobs):
